@@ -6,6 +6,10 @@ pub mod core;
 pub mod hist_props;
 pub mod monitors;
 pub mod multi_props;
+pub mod padalloc;
+
+#[global_allocator]
+static GLOBAL: padalloc::PadAlloc = padalloc::PadAlloc;
 
 use crate::core::*;
 use simcore::cli::{parse_args, Cmd, ShardStats, WorkerArgs};
@@ -189,7 +193,13 @@ fn worker(args: &WorkerArgs, progs: &[Prog]) -> ShardStats {
     let mut stats = ShardStats::new();
     let thorough = args.tier == "thorough";
     let prop = args.prop.as_str();
-    for f in ["cancel_at_poll", "duplicate_assertion", "equate_between_closes", "alias_nonroot_argument", "late_assertion_after_close"] {
+    let fault_kinds: &[&str] = match prop {
+        "C07" => &["cancel_at_poll"],
+        "C02" => &["equate_between_closes"],
+        "C03" | "C16" | "C19" | "C17" | "C18" => &[],
+        _ => &["cancel_at_poll", "duplicate_assertion", "equate_between_closes", "alias_nonroot_argument", "late_assertion_after_close"],
+    };
+    for f in fault_kinds {
         stats.declare_fault(f);
     }
     // rare-branch probes that this property's workload is expected to reach
@@ -356,6 +366,9 @@ pub fn main_with(entries: Vec<mdrv::Entry>) {
             eprintln!("panic: {info}\n{}", std::backtrace::Backtrace::force_capture());
         }
     }));
+    if let Some(n) = std::env::var("VERIF_ALLOC_PAD").ok().and_then(|s| s.parse::<usize>().ok()) {
+        padalloc::set_pad(n);
+    }
     let progs = match load_progs(&entries) {
         Ok(p) => p,
         Err(e) => {
